@@ -158,13 +158,18 @@ def audit(prop_modules):
 
 
 # --------------------------------------------------------------------------- Rust side
-def cargo_build():
+def cargo_build(profiles=("release",)):
     lock_src = os.path.join(REPO, "Cargo.lock")
     if os.path.exists(lock_src):
         shutil.copyfile(lock_src, os.path.join(HARNESS, "Cargo.lock"))
     env = dict(ENV, CARGO_TARGET_DIR=os.path.join(CACHE, "target"))
-    rc, out, dt = sh(["cargo", "build", "--release", "--offline"], cwd=HARNESS, timeout=3600, env=env)
-    return rc, out, dt
+    rc_all, out_all, dt_all = 0, "", 0.0
+    for prof in profiles:
+        rc, out, dt = sh(["cargo", "build", "--profile", prof, "--offline"], cwd=HARNESS, timeout=3600, env=env)
+        rc_all = rc_all or rc
+        out_all += out
+        dt_all += dt
+    return rc_all, out_all, dt_all
 
 
 def run_driver(ops_path, model_path, shards=16):
@@ -242,7 +247,7 @@ def setup():
         print("lake build: rc=%d %.0fs" % (rc, dt))
         if rc != 0:
             print(out[-4000:])
-        rc2, out2, dt2 = cargo_build()
+        rc2, out2, dt2 = cargo_build(("release", "dbgsem"))
         print("cargo build: rc=%d %.0fs" % (rc2, dt2))
         if rc2 != 0:
             print(out2[-4000:])
@@ -258,7 +263,8 @@ def run_harness(prop, cfg, tier, seed, rundir, extra=None):
         sdir = os.path.join(rundir, st["name"])
         shutil.rmtree(sdir, ignore_errors=True)
         os.makedirs(sdir)
-        cmd = [os.path.join(rundir, "bvh")] + st["cmd"] + ["--tier", tier, "--seed", str(seed), "--out", sdir] + (extra or [])
+        binname = "bvh" if st.get("profile", "release") == "release" else "bvh-" + st["profile"]
+        cmd = [os.path.join(rundir, binname)] + st["cmd"] + ["--tier", tier, "--seed", str(seed), "--out", sdir] + (extra or [])
         rc, out, dt = sh(cmd, cwd=sdir, timeout=st.get("timeout", 7200))
         res = {"name": st["name"], "rc": rc, "wall_s": round(dt, 1), "log_tail": out[-3000:]}
         rp = os.path.join(sdir, "report.json")
@@ -338,13 +344,16 @@ def check(prop, tier, seed, replay=None):
             rc_d, out_d, _, _ = lake_build(["bvdrive"])
             if rc_d != 0:
                 broken.append("lean: model driver does not build: " + out_d[-300:])
-        rc_c, out_c, dt_cargo = cargo_build()
+        profiles = sorted({st.get("profile", "release") for st in cfg["stages"]} | {"release"})
+        rc_c, out_c, dt_cargo = cargo_build(profiles)
         if rc_c != 0:
             broken.append("harness: cargo build failed against the current tree: " + out_c[-1500:])
         else:
-            shutil.copyfile(os.path.join(CACHE, "target", "release", "bvh"), os.path.join(rundir, "bvh.tmp"))
-            os.chmod(os.path.join(rundir, "bvh.tmp"), 0o755)
-            os.replace(os.path.join(rundir, "bvh.tmp"), os.path.join(rundir, "bvh"))
+            for prof in profiles:
+                name = "bvh" if prof == "release" else "bvh-" + prof
+                shutil.copyfile(os.path.join(CACHE, "target", prof, "bvh"), os.path.join(rundir, name + ".tmp"))
+                os.chmod(os.path.join(rundir, name + ".tmp"), 0o755)
+                os.replace(os.path.join(rundir, name + ".tmp"), os.path.join(rundir, name))
     stages = []
     if rc_c == 0:
         stages = run_harness(prop, cfg, tier, seed, rundir)
